@@ -331,6 +331,11 @@ Definition get_connection : M :=
   (fun s => when (negb (k_intxn s)) (upd (set_k_imm true) ;; prepare ;; upd (set_k_intxn true)) s) ;;
   (fun s => assert_ (k_has s) s).
 
+(* Database.disconnect() (only allowed outside a db_session): roll back a cache left over from interactive use, then
+   provider.disconnect() -> Pool.disconnect: con = pool.con; pool.con = None; if con is not None: con.close() *)
+Definition pool_disconnect : M := fun s => if p_has s then db_close (p_id s) (set_p_has false s) else (Ok, s).
+Definition db_disconnect : M := (fun s => if k_reg s then cache_close true s else (Ok, s)) ;; pool_disconnect.
+
 (* ---- session bodies ---- *)
 Inductive op := OSelect | OForUpd | ONew | OFlush | ORawWrite | OCommit | ORollback | ODbCommit | ODbRollback | ORaise | OGetConn
   | OLink | OUnlink                       (* a many-to-many link added / removed between loaded objects: no SQL before the flush *)
